@@ -596,7 +596,7 @@ func (r *Run) ProcsChildren(rangeLimit int, procs ...int) {
 		go func(i, p int) {
 			defer wg.Done()
 			lim := rangeLimit
-			if p == 1 && lim > 3000 {
+			if p == 1 && lim > 600 {
 				lim /= 3 // the single-P child has one core
 			}
 			rest, err := r.runChildChecksEnv(fmt.Sprintf("GOMAXPROCS=%d", p), []string{fmt.Sprintf("GOMAXPROCS=%d", p)}, "procchild", r.ID, fmt.Sprint(r.Seed), fmt.Sprint(lim))
